@@ -228,6 +228,8 @@ impl Linker {
         let result = self.load_inputs_and_link::<P, A>(&mut file_loader, args);
 
         file_loader.verify_inputs_unchanged()?;
+        #[cfg(feature = "verif")]
+        crate::verif::phase::point("after-verify-inputs");
 
         // Write the dependency file and inputs trace after successful linking.
         if result.is_ok() {
@@ -259,6 +261,8 @@ impl Linker {
         let mut plugin = P::maybe_init_linker_plugin(args, &self.linker_plugin_arena, &self.herd)?;
 
         let loaded = file_loader.load_inputs::<P>(&args.common().inputs, args, &mut plugin);
+        #[cfg(feature = "verif")]
+        crate::verif::phase::point("after-load-inputs");
 
         args.common().save_dir.finish(file_loader, args)?;
 
